@@ -120,6 +120,8 @@ def space(tier):
                                     if lp == 2 and not ov_["add_untagged"] and not T:
                                         continue
                                     yield ov_
+                                    if lp == 0 and ploidy == 2 and not ov_["largest"] and ((T and fmt in ("bam", "fastq")) or (fmt == "bam" and len(names) == 2 and (cols, header) in ((2, False), (4, True)))):
+                                        yield dict(ov_, listdup=True)
                                     if "c" in names and assign[2] != "absent" and lp == 0 and ploidy == 2 and fmt in ("bam", "fastq") and (header or assign[0] != "absent" or assign[1] != "absent") and (T or (all(ov_["req"]) and not ov_["largest"])):
                                         yield dict(ov_, hashname=True)
                                     if lp == 0 and ploidy == 2 and fmt in ("bam", "fastq") and len(set(names)) >= 2 and (T or (all(ov_["req"]) and not ov_["largest"] and (cols, header) == (2, False))):
@@ -134,8 +136,10 @@ def option_vectors(ploidy, names, assign, zextra, fmt, lp, cols, header, T):
     nout = ploidy + 1
     # requested outputs: all; all but untagged; only h1; untagged + last
     req_sets = [tuple([True] * nout), tuple([False] + [True] * ploidy), tuple([False, True] + [False] * (ploidy - 1)), tuple([True] + [False] * (ploidy - 1) + [True])]
+    if ploidy == 2:
+        req_sets.append((True, False, False))  # only the untagged reads are asked for
     if T and len(names) < 4:
-        req_sets = [r for r in itertools.product((False, True), repeat=nout) if any(r[1:])]
+        req_sets = [r for r in itertools.product((False, True), repeat=nout) if any(r)]
     style = "h12" if ploidy == 2 else "o"
     for req in req_sets:
         if style == "o" and not all(req[1:]):
@@ -196,10 +200,12 @@ def judge(inst):
         if inst["header"]:
             f.write("#readname\thaplotype" + ("\tphaseset\tchromosome" if inst["cols"] == 4 else "") + "\n")
         for n, a in entries:
-            if inst["cols"] == 4:
-                f.write(f"{n}\t{a}\t{BLOCK[n][1] if a != 'none' else 'none'}\t{BLOCK[n][0]}\n")
-            else:
-                f.write(f"{n}\t{a}\n")
+            # "listdup": every line twice, as haplotag writes one line per primary alignment of a read pair
+            for _rep in range(2 if inst.get("listdup") else 1):
+                if inst["cols"] == 4:
+                    f.write(f"{n}\t{a}\t{BLOCK[n][1] if a != 'none' else 'none'}\t{BLOCK[n][0]}\n")
+                else:
+                    f.write(f"{n}\t{a}\n")
     ext = "bam" if fmt == "bam" else fmt
     outs = [os.path.join(d, f"out{i}.{ext}") if r else None for i, r in enumerate(inst["req"])]
     hist = os.path.join(d, "hist.tsv")
